@@ -33,6 +33,7 @@ func c08(c *Ctx) {
 	c08R6(c)
 	c08R7(c)
 	c08R8(c)
+	requesterGuardRule(c, "R9")
 }
 
 func c08R4(c *Ctx) {
